@@ -70,7 +70,7 @@ theorem pin_parser_parser_parseBinaryExprTail : Gen.C08.pin_parser_parser_parseB
 theorem pin_parser_parser_parseUnaryExpr : Gen.C08.pin_parser_parser_parseUnaryExpr = "73ff9f45116d3361" := by decide
 theorem pin_format_formatter_exprRaw_case_BinaryExpr : Gen.C08.pin_format_formatter_exprRaw_case_BinaryExpr = "663998a7789358a0" := by decide
 theorem pin_format_formatter_exprRaw_case_UnaryExpr : Gen.C08.pin_format_formatter_exprRaw_case_UnaryExpr = "4d6c2b56986a320a" := by decide
-theorem pin_format_unaryOpMergesWithOperand : Gen.C08.pin_format_unaryOpMergesWithOperand = "e3c22e6733f695f2" := by decide
+theorem pin_format_unaryOpMergesWithOperand : Gen.C08.pin_format_unaryOpMergesWithOperand = "0b112c9bd5fbed28" := by decide
 /-- cue/format's guard is textually the guard of internal/pretty (same normalised source) -/
 theorem v1_guard_is_v2_guard : Gen.C08.pin_format_unaryOpMergesWithOperand = Gen.C08.pin_pretty_unaryOpMergesWithOperand := by decide
 theorem pin_format_formatter_exprRaw_case_ParenExpr : Gen.C08.pin_format_formatter_exprRaw_case_ParenExpr = "0245dbdb235de0b9" := by decide
@@ -93,7 +93,7 @@ theorem pin_pretty_binaryCutoff : Gen.C08.pin_pretty_binaryCutoff = "cd948a8b0d9
 theorem pin_pretty_binaryWalk : Gen.C08.pin_pretty_binaryWalk = "2fc939ada3b668af" := by decide
 theorem pin_pretty_binaryDiffPrec : Gen.C08.pin_pretty_binaryDiffPrec = "0ca04347bb5e16ca" := by decide
 theorem pin_pretty_operatorsWouldMerge : Gen.C08.pin_pretty_operatorsWouldMerge = "7b986f7113b3b7a8" := by decide
-theorem pin_pretty_unaryOpMergesWithOperand : Gen.C08.pin_pretty_unaryOpMergesWithOperand = "e3c22e6733f695f2" := by decide
+theorem pin_pretty_unaryOpMergesWithOperand : Gen.C08.pin_pretty_unaryOpMergesWithOperand = "0b112c9bd5fbed28" := by decide
 theorem pin_pretty_converter_parenExpr : Gen.C08.pin_pretty_converter_parenExpr = "9eee671d7f978005" := by decide
 theorem pin_format_Node : Gen.C08.pin_format_Node = "7e9e109c7b04913e" := by decide
 theorem pin_format_Source : Gen.C08.pin_format_Source = "b44f02e64d25d337" := by decide
